@@ -27,6 +27,8 @@ Record enum_rules := ER { er_in : list str; er_notin : list str }.
 Inductive kfmt := KInformal | KCustom (p : str) | KUuid | KId62.
 (* ArrayField.Rules *)
 Record arr_rules := AR { ar_min : option N; ar_max : option N; ar_uniq : option bool }.
+(* MapField.Rules *)
+Record map_rules := MR { mr_min : option N; mr_max : option N }.
 (* Date/Decimal rules: textual bounds *)
 Record txt_rules := TR {
   tr_min : option str; tr_max : option str;
@@ -66,7 +68,7 @@ Inductive fty :=
 Inductive pty :=
 | PSingle (t : fty)
 | PArray (r : option arr_rules) (single_form : option str) (t : fty)
-| PMap (t : fty).
+| PMap (r : option map_rules) (t : fty).
 
 (* ObjectProperty: name (JSON name), required, explicitly optional, type, description *)
 Record prop := P {
@@ -85,6 +87,7 @@ Inductive tyc :=
 | CBool (c : option bool)
 | CEnum (defined_only : bool) (cin cnotin : list Z)
 | CRep (min max : option N) (uniq : option bool) (items : option tyc)
+| CMap (min max : option N) (values : option tyc)
 | CTimestamp
 | COther.                 (* anything else found in a real descriptor *)
 
@@ -136,4 +139,5 @@ Inductive value :=
 Inductive fvalue :=
 | FAbsent                  (* explicit-presence field not populated *)
 | FOne (v : value)         (* singular field: Get(), i.e. the zero value when an implicit-presence field is unset *)
-| FMany (vs : list value). (* repeated field *)
+| FMany (vs : list value)  (* repeated field *)
+| FMap (kvs : list (str * value)). (* map field: pairs with pairwise different keys *)
